@@ -1772,12 +1772,14 @@ impl PatternFusion for GroupedQueryAttentionMatMulFusion {
         let mut alpha = None;
         let mut transpose_rhs = false;
 
-        if let Some(transpose_op) = pat_match
-            .node_id("transpose")
-            .and_then(|id| graph.get_operator::<Transpose>(id))
+        if let Some(transpose_id) = pat_match.node_id("transpose") {
             // Permute must transpose only last two dims
-            && transpose_op.perm.as_deref() == Some(&[0, 1, 3, 2])
-        {
+            let transpose_op = graph
+                .get_operator::<Transpose>(transpose_id)
+                .ok_or(FusionError::NoMatch)?;
+            if transpose_op.perm.as_deref() != Some(&[0, 1, 3, 2]) {
+                return Err(FusionError::CheckFailed("unsupported RHS transpose"));
+            }
             transpose_rhs = true;
 
             if let Some(matmul) = pat_match
